@@ -122,3 +122,67 @@ Proof.
   rewrite (udp_announce_entry_width t txid v6a (ann_of_areq r) c i ps Htx Hps).
   cbn [ann_of_areq a_v6]. unfold v6_of. by destruct (r_af r).
 Qed.
+
+(* ---- C09, end to end: the datagram answering an accepted UDP announce decodes, with the independent BEP 15
+   reference decoder, to the request's own transaction id (bytes 12..15 of the request), the action the
+   request used, the configured interval in whole seconds, the counts and the peers the logic computed *)
+Lemma handle_udp_txid mac k skew now o ip packet txid v6a r q :
+  UdpParse.handle_udp mac k skew now o ip packet = UdpParse.UAnnounce txid v6a r q → txid = sub 12 16 packet.
+Proof.
+  unfold UdpParse.handle_udp, ConnID.dispatch_request.
+  destruct (Nat.ltb (length packet) 16) eqn:El; [done|].
+  destruct (negb _ && negb _); [done|].
+  destruct (_ =? UdpWrite.act_connect).
+  { destruct (negb _); [done|]. destruct (ConnID.ip_family ip); done. }
+  destruct (_ || _ || _); [|done].
+  destruct (_ =? UdpWrite.act_scrape).
+  - destruct (UdpParse.parse_scrape o packet); try done. destruct (ConnID.ip_family ip); done.
+  - destruct (UdpParse.parse_announce _ o (Some ip) packet) as [[r' q']|e|]; try done. by intros [= <- _ _ _].
+Qed.
+
+Lemma respond_counts_u32 a sp c i ps : respond spec_if a sp = Some (c, i, ps) → u32 c ∧ u32 i.
+Proof.
+  unfold respond. cbn [st_scrape spec_if]. destruct (sm_scrape (a_ih a, a_v6 a) sp) as [c0 i0].
+  destruct (key_lists spec_if sp (a_ih a) (a_v6 a)) as [Sk Lk].
+  destruct (decode_all _) as [[|p l]|]; [|intros [= <- <- _]|done].
+  - intros [= <- <- _]. unfold u32. split; apply wrap_range; lia.
+  - unfold u32. split; apply wrap_range; lia.
+Qed.
+
+Lemma sane_peer_ok v6 p : sane_peer v6 p → peer_ok (if v6 then 16 else 4)%nat p.
+Proof.
+  intros (_ & _ & Hport & _ & Hl). split; [|lia]. destruct v6; [by destruct Hl|done].
+Qed.
+
+Theorem udp_announce_end_to_end mac t u ops clock ip packet txid v6a r q :
+  Forall sop_sane ops → wf_bytes packet = true → wf_bytes ip = true → (length ip = 4 ∨ length ip = 16)%nat →
+  UdpParse.handle_udp mac (uc_key u) (uc_skew u) clock (uc_opts u) ip packet = UdpParse.UAnnounce txid v6a r q →
+  ∃ sp' d c i ps,
+    udp_step spec_if mac t u (run_spec ops) clock ip packet = Some (sp', [d]) ∧
+    respond spec_if (ann_of_areq r) (run_spec ops) = Some (c, i, ps) ∧
+    sp' = swarm_interaction spec_if (ann_of_areq r) clock (run_spec ops) ∧
+    UdpWrite.bep15_decode_announce (v6_of (r_af r)) d =
+      Some {| UdpWrite.da_action := if v6a then 4 else 1; UdpWrite.da_txid := sub 12 16 packet;
+              UdpWrite.da_interval := UdpWrite.interval_field (t_interval t);
+              UdpWrite.da_leechers := i; UdpWrite.da_seeders := c; UdpWrite.da_peers := map endpoint ps |}.
+Proof.
+  intros Hs Hpw Hipw Hip E. unfold udp_step. rewrite E.
+  pose proof (handle_udp_txid_length _ _ _ _ _ _ _ _ _ _ _ E) as Htx.
+  pose proof (handle_udp_txid _ _ _ _ _ _ _ _ _ _ _ E) as Htxe.
+  apply UdpParseP.udp_logic_only_after_parse in E.
+  pose proof (udp_request_peer_sane _ _ _ _ _ _ E Hpw Hipw Hip) as Ha.
+  destruct (respond_no_panic (ann_of_areq r) (run_spec ops) (run_spec_keys_ok ops Hs) Ha) as (c & i & ps & Er & _ & Hps).
+  rewrite Er. destruct (respond_counts_u32 _ _ _ _ _ Er) as [Hc Hi].
+  eexists _, _, c, i, ps. split; [reflexivity|]. split; [done|]. split; [done|].
+  unfold udp_announce_datagram.
+  assert (a_v6 (ann_of_areq r) = v6_of (r_af r)) as Ev by (cbn [ann_of_areq a_v6]; by destruct (r_af r)).
+  rewrite Ev in *.
+  rewrite (udp_announce_decodes txid _ v6a (v6_of (r_af r)) Htx).
+  - cbn [UdpWrite.a_interval UdpWrite.a_incomplete UdpWrite.a_complete UdpWrite.a_v4 UdpWrite.a_v6]. rewrite Htxe.
+    by destruct (v6_of (r_af r)).
+  - split; [exact Hi|]. split; [exact Hc|].
+    cbn [UdpWrite.a_v4 UdpWrite.a_v6].
+    replace (if v6_of (r_af r) then if v6_of (r_af r) then ps else [] else if v6_of (r_af r) then [] else ps) with ps
+      by (by destruct (v6_of (r_af r))).
+    eapply Forall_impl; [exact Hps|]. intros p Hp. by apply sane_peer_ok.
+Qed.
